@@ -306,8 +306,9 @@ def finish(prop, tier, seed, results, listing_errors, t0, quiet, repo):
         "wall_s": round(wall, 2),
         "violations": len(violations),
     }
-    os.makedirs(os.path.join(VERIF, "evidence"), exist_ok=True)
-    json.dump(evidence, open(os.path.join(VERIF, "evidence", f"{prop}.json"), "w"), indent=1, default=str)
+    evdir = os.environ.get("PYVC_EVIDENCE_DIR") or os.path.join(VERIF, "evidence")   # redirected only by tools/try_seed.py
+    os.makedirs(evdir, exist_ok=True)
+    json.dump(evidence, open(os.path.join(evdir, f"{prop}.json"), "w"), indent=1, default=str)
 
     if not quiet:
         print(f"property {prop} tier {tier}: {n_dis}/{n_obl} obligations discharged, {len(bounded)} bounded, "
